@@ -23,6 +23,9 @@ pub struct Case {
     pub lines: Vec<String>,
     /// permutations of 0..lines.len()
     pub perms: Vec<Vec<usize>>,
+    /// REAL fields may be NaN (regex flavour): only the permutation oracle applies, NaN prints like an absent value
+    #[serde(default)]
+    pub nan: bool,
 }
 
 pub struct C15;
@@ -110,7 +113,7 @@ impl Property for C15 {
 
     fn rule(&self) -> String {
         "an aggregate statement over COUNT / COUNT(c) / COUNT(DISTINCT) / SUM / MIN / MAX / AVG / STDDEV / VARIANCE / PERCENTILE / BOOL_AND / BOOL_OR (MIN/MAX also over TEXT / TIMESTAMP) with 0-2 GROUP BY keys, optional \
-         WHERE and HAVING x <= 14 lines over small domains (REALs are multiples of 1/4, so sums are exact; NULL possibly first) x 3 permutations of the lines x EVERY cut of the input into two parts. \
+         WHERE and HAVING x <= 14 lines over small domains (REALs are multiples of 1/4, so sums are exact; NULL possibly first; in a fifth of the regex-flavoured cases REAL fields may be NaN, judged by the permutation oracle only) x 3 permutations of the lines x EVERY cut of the input into two parts. \
          Oracle (metamorphic): the printed table is identical for every permutation; for every cut (statements without HAVING) the set of groups of the whole = union of the parts' groups and per group \
          COUNT/SUM add, MIN/MAX and BOOL_AND/BOOL_OR combine (absent = identity). Non-trivial: >= 2 groups and a permutation that changes the first row of some group; distinct by case."
             .to_string()
@@ -122,7 +125,7 @@ impl Property for C15 {
 
     fn cases(&self, tier: Tier) -> u64 {
         match tier {
-            Tier::Quick => 30_000,
+            Tier::Quick => 90_000,
             Tier::Thorough => 1_000_000,
         }
     }
@@ -141,7 +144,28 @@ impl Property for C15 {
 
     fn generate(&self, t: &mut Tape, ctx: &Ctx) -> Case {
         let table = gen_table(t, "t", "c", false);
-        let lines = gen_group_lines(t, &table, 14);
+        let mut lines = gen_group_lines(t, &table, 14);
+        let nan = !table.json && table.cols.iter().any(|c| c.1 == Ty::Real) && t.chance(1, 5);
+        if nan {
+            lines.clear();
+            let n = 2 + t.draw(10);
+            for _ in 0..n {
+                let values: Vec<V> = table
+                    .cols
+                    .iter()
+                    .map(|(_, ty)| {
+                        if t.chance(1, 5) {
+                            V::Null
+                        } else if *ty == Ty::Real && t.chance(1, 3) {
+                            V::Real(f64::NAN)
+                        } else {
+                            crate::props::c04::small_value(t, *ty)
+                        }
+                    })
+                    .collect();
+                lines.push(table.line(&values, t));
+            }
+        }
         let mut g = AggGen { table: &table, ctx, excluded: 0 };
         let mut q = Select::simple(Vec::new(), "t");
         let nkeys = t.weighted(&[2, 5, 2]);
@@ -179,7 +203,7 @@ impl Property for C15 {
                 p
             })
             .collect();
-        Case { table, query: q, lines, perms }
+        Case { table, query: q, lines, perms, nan }
     }
 
     fn check(&self, case: &Case, ctx: &Ctx, obs: &mut Obs) -> Result<(), Failure> {
@@ -242,7 +266,10 @@ impl Property for C15 {
         obs.nontrivial = whole.len() >= 2 && case.perms.iter().any(|pm| pm.iter().enumerate().any(|(i, j)| i != *j));
 
         // 2. every cut
-        if case.query.having.is_none() {
+        if case.nan {
+            obs.label("nan-values");
+        }
+        if case.query.having.is_none() && !case.nan {
             obs.label("cuts-checked");
             let rules: Vec<Combine> = case.query.items.iter().enumerate().map(|(i, (e, _))| combine_rule(e, i < nkeys)).collect();
             for cut in 1..case.lines.len() {
